@@ -330,6 +330,61 @@ def fam_query_numbers():
         topologies=sorted(topos), values=values, queries=len(queries)))
 
 
+# ---- blank / degenerate string values for every query parameter ---------
+
+def fam_query_strings():
+    """every query parameter of the listing routes x a catalogue of blank and
+    degenerate values, alone and next to an otherwise valid query, on states
+    where the valid part has results (finite, enumerated as decisions)"""
+    topo = c03.TOPOS['two'].but(sure_traits=[(1, 'CUSTOM_T1')],
+                                sure_aggs=[(1, 1)])
+    A = AGG(1)
+    vals = ['', ' ', ',', ', ,', 'x', '!', '!!', 'in:', '!in:', 'in:,', ':',
+            'VCPU', 'VCPU:', ':1', 'VCPU:1,', ',VCPU:1', 'VCPU:1:1', '!,',
+            U(1), U(1) + ',', A, A + ',', 'in:' + A + ',', 'none', '_A',
+            '_A,', ',_A', '_A,_B', '_A,,_B', '0', '-1', '1e3', '%00',
+            'CUSTOM_T1', 'CUSTOM_T1,', '!CUSTOM_T1,', 'in:CUSTOM_T1,!x']
+    routes = {
+        '/allocation_candidates': (
+            'resources=VCPU:1&resources_A=VCPU:1&resources_B=DISK_GB:1'
+            '&group_policy=none',
+            ['resources', 'required', 'member_of', 'in_tree', 'limit',
+             'group_policy', 'root_required', 'same_subtree', 'resources_C',
+             'required_A', 'member_of_A', 'in_tree_A', 'required_C']),
+        '/resource_providers': (
+            '', ['name', 'uuid', 'in_tree', 'member_of', 'required',
+                 'resources']),
+        '/traits': ('', ['name', 'associated']),
+        '/usages': ('project_id=p', ['user_id', 'consumer_type',
+                                     'project_id']),
+        '/resource_classes': ('', ['name']),
+    }
+    flat = [(rt, base, prm) for rt, (base, prms) in sorted(routes.items())
+            for prm in prms]
+
+    def path(ctx):
+        app.setup()
+        rt, base, prm = flat[symex.choose(len(flat))]
+        v = vals[symex.choose(len(vals))]
+        import urllib.parse
+        q = '&'.join(x for x in (base, '%s=%s' % (
+            prm, urllib.parse.quote(v, safe=':,!_-'))) if x)
+        with cands.CW(ctx, topo, usage=False) as cw:
+            pre = cw.w.dump()
+            r = app.call('GET', rt + '?' + q, version='1.39')
+            post = cw.w.dump()
+            what = '%s?...%s=%r' % (rt, prm, v)
+            well_formed(ctx, r, what)
+            obligation(ctx, 'read-changes-nothing',
+                       zbool(rel_diff(pre, post, CORE_TABLES)),
+                       '%s changed stored state' % what)
+            return finish(ctx, str(r.status))
+    return Family('query-strings', path, bounds=dict(
+        parameters=len(flat), values=len(vals),
+        state='tree + flat node with inventories (the valid part of the '
+              'query has candidates); inventory numbers symbolic'))
+
+
 # ---- strings: CrossHair on the pure parsers ----------------------------------
 
 CH_TARGET = os.path.join(os.path.dirname(os.path.abspath(__file__)),
@@ -391,7 +446,7 @@ def families(tier):
         shapes = [s for s in shapes if s.name in keep]
     fams = [fam_numbers(s) for s in shapes]
     fams += [fam_special_floats(), fam_mutations(), fam_error_format(),
-             fam_query_numbers()]
+             fam_query_numbers(), fam_query_strings()]
     if os.environ.get('VERIF_NO_CROSSHAIR') != '1':
         fams.append(fam_crosshair(8 if tier == 'quick' else 60))
     return fams
